@@ -177,9 +177,39 @@ func sendPlainX(h *harness.Server, id uint32, fields []ref.Field, body []byte, t
 	sendBlockX(h, id, staticBlock(fields), body, trailers, split, pad)
 }
 
+// edgeSplits: the cuts at the ends of a block, as negative values of a case's Split: -1 an empty HEADERS fragment
+// and everything in the CONTINUATION, -2 everything in HEADERS and an empty CONTINUATION carrying END_HEADERS,
+// -3 two empty CONTINUATION frames after the whole block, -4 an empty CONTINUATION in the middle (offset 3).
+func edgeSplits(split, n int) []int {
+	switch split {
+	case -1:
+		return []int{0}
+	case -2:
+		return []int{n}
+	case -3:
+		return []int{n, n}
+	case -4:
+		return []int{min(3, n), min(3, n)}
+	}
+	if split > 0 {
+		return []int{split}
+	}
+	return nil
+}
+
 func sendBlockX(h *harness.Server, id uint32, blk []byte, body []byte, trailers []ref.Field, split, pad int) {
 	hasMore := len(body) > 0 || trailers != nil
-	if split > 0 && split <= len(blk) {
+	if split < 0 {
+		offs := edgeSplits(split, len(blk))
+		h.SendFrames(peer.Headers(id, blk[:offs[0]], peer.HeadersOpt{EndStream: !hasMore, Pad: -1}))
+		for i, o := range offs {
+			end := len(blk)
+			if i+1 < len(offs) {
+				end = offs[i+1]
+			}
+			h.SendFrames(peer.Continuation(id, blk[o:end], i == len(offs)-1))
+		}
+	} else if split > 0 && split <= len(blk) {
 		h.SendFrames(peer.Headers(id, blk[:split], peer.HeadersOpt{EndStream: !hasMore, Pad: -1}))
 		h.SendFrames(peer.Continuation(id, blk[split:], true))
 	} else {
@@ -259,6 +289,8 @@ func c20Run(cs c20Case) (*fw.Violation, *harness.Server) {
 			shape += fmt.Sprintf(" body=%d trailers=%s", cs.BodyLen, cs.Trailers)
 			if cs.Split > 0 {
 				shape += " continuation"
+			} else if cs.Split < 0 {
+				shape += fmt.Sprintf(" edge-continuation(%d)", cs.Split)
 			}
 			if pad >= 0 {
 				shape += " padded-data"
@@ -399,11 +431,18 @@ func runC20(c *fw.Ctx) {
 		}
 		fields, _ := c20Fields(c20Case{Items: items, BodyLen: 5, Trailers: "none"}, 3)
 		n := len(staticBlock(fields))
-		for off := 1; off < n; off++ {
+		for off := -4; off < n; off++ {
 			if c.Expired("C20 fragmented") {
 				break
 			}
+			if off == 0 {
+				continue
+			}
 			one(c20Case{Items: items, BodyLen: 5, Trailers: "none", Pos: 1, Split: off})
+			if off < 0 {
+				one(c20Case{Items: items, BodyLen: 0, Trailers: "none", Pos: 1, Split: off})
+				one(c20Case{Items: items, BodyLen: 5, Trailers: "valid", Pos: 1, Split: off})
+			}
 		}
 		for _, pd := range []int{1, 5, 256} {
 			one(c20Case{Items: items, BodyLen: 5, Trailers: "none", Pos: 1, PadData: pd})
@@ -423,8 +462,10 @@ func runC20(c *fw.Ctx) {
 	}
 	// ... and single items with the (short) second block cut at every offset, so that each reference opens a fragment
 	for it := 0; it < len(c20Items); it++ {
-		for off := 1; off <= 24; off++ {
-			one(c20Case{Items: []int{it}, BodyLen: 0, Trailers: "none", Pos: 1, Repeat: true, Split: off})
+		for off := -4; off <= 24; off++ {
+			if off != 0 {
+				one(c20Case{Items: []int{it}, BodyLen: 0, Trailers: "none", Pos: 1, Repeat: true, Split: off})
+			}
 		}
 	}
 	c.Family("server-repeated-with-dynamic-table")
